@@ -282,22 +282,22 @@ def _special(lv, op, ctx, i):
             # the lazy sequence is created and indexed (backwards and forwards) WITHOUT being iterated; no node
             # may stay pinned after any of these calls, while the sequence is still alive
             idxs = op[6]
-            wantv = [len(want)] + [(want[j] if -len(want) <= j < len(want) else 'IndexError') for j in idxs]
+            wantv = [bool(want), len(want)] + [(want[j] if -len(want) <= j < len(want) else 'IndexError') for j in idxs]
             lv.view_sticky = None
 
             def call():
                 v = getattr(t, meth)(kmn, kmx, exmin, exmax)
                 out = []
-                steps = [('len', None)] + [('idx', j) for j in idxs]
+                steps = [('bool', None), ('len', None)] + [('idx', j) for j in idxs]
                 if lv.conn.sticky():
                     lv.view_sticky = 'creating the sequence'
                 for what, j in steps:
                     try:
-                        out.append(len(v) if what == 'len' else v[j])
+                        out.append(bool(v) if what == 'bool' else (len(v) if what == 'len' else v[j]))
                     except IndexError:
                         out.append('IndexError')
                     if lv.view_sticky is None and lv.conn.sticky():
-                        lv.view_sticky = 'len()' if what == 'len' else 'indexing it with %d' % j
+                        lv.view_sticky = what + '()' if what != 'idx' else 'indexing it with %d' % j
                 return out
             return call, ('ok', wantv), 'eq'
         return call, ('ok', want), 'eq'
